@@ -43,7 +43,8 @@ def tokenize(sql):
         elif m.group(2) is not None: out.append(('str', m.group(2)[1:-1].replace("''", "'")))
         elif m.group(3) is not None:
             w = m.group(3)
-            if w[0] in '["': out.append(('id', w[1:-1]))
+            if w[0] == '[': out.append(('id', w[1:-1]))
+            elif w[0] == '"': out.append(('dq', w[1:-1]))       # SQLite: an identifier - or, when no such column exists, a string literal (legacy behaviour the 1.x triggers rely on: NEW.title || ";")
             elif w.upper() in KEYWORDS: out.append(('kw', w.upper()))
             else: out.append(('id', w))
         else: out.append(('op', m.group(4)))
@@ -65,7 +66,7 @@ class Parser:
         if not s.accept(kind, val): raise SqlError('expected %s %s at token %d of: %s' % (kind, val, s.i, s.sql[:200]))
     def ident(s):
         t = s.next()
-        if t[0] == 'id': return t[1]
+        if t[0] in ('id', 'dq'): return t[1]
         if t[0] == 'kw': return t[1]          # keywords used as names (e.g. a column called key)
         raise SqlError('identifier expected in: ' + s.sql[:200])
     # ---- expressions
@@ -127,7 +128,8 @@ class Parser:
             if s.at_kw('SELECT'):
                 sub = s.select(); s.expect('op', ')'); return ('subq', sub)
             e = s.expr(); s.expect('op', ')'); return e
-        if t[0] in ('id', 'kw'):
+        if t[0] == 'dq' and not s.at('op', '(') and not s.at('op', '.'): return ('dq', t[1])
+        if t[0] in ('id', 'kw', 'dq'):
             name = t[1]
             if t[0] == 'id' and name.upper() in ('TRUE', 'FALSE') and not s.at('op', '(') and not s.at('op', '.'): return ('lit', ('int', 1 if name.upper() == 'TRUE' else 0))
             if s.at('op', '('):
@@ -372,6 +374,10 @@ def install_rel(eng, cfg):
     def db_of(q):
         if getattr(q, 'rel', None) is None:
             q.rel = RelDB(schema)
+            # rows the schema creator itself inserts with literal statements (e.g. the default AlbumArt / Historylist / Preparelist rows of 1.x)
+            for sql in cfg.get('seed', []):
+                try: run(Ctx(None, q.rel, {}, sql), parse_statement(sql))
+                except (SqlError, Abort) as e: raise E.Inconclusive('sqlmodel', 'creator statement not executable by the model: %s (%s)' % (sql[:80], e))
             if getattr(q, 'txn', 0): q.rel_snapshot = q.rel.snapshot()       # created inside an open transaction: rollback returns to the empty store
         return q.rel
     def sgn(x): return E.to_signed(x & M64, 64) if x.__class__ is int else x
@@ -440,6 +446,10 @@ def install_rel(eng, cfg):
             if e[1] not in ctx.binds: raise E.Bug('assert', 'SQL parameter %d of "%s" was never bound' % (e[1], ctx.sql[:60]), eng._m(ctx.st))
             return ctx.binds[e[1]]
         if k == 'col': return lookup(ctx, row_env, e[1], e[2])
+        if k == 'dq':
+            for names, row in row_env:
+                if e[1].lower() in row: return row[e[1].lower()]
+            return ('text', tuple(e[1].encode('utf-8')))
         if k == 'neg':
             v = ev(ctx, e[1], row_env)
             if v[0] == 'null': return v
